@@ -5,9 +5,10 @@
    of a sub-folder in its own history, or the root hash of any generation of the root history, i.e. entries
    directly in the root folder included -- counts as failed exactly when the content or structure hash computed now
    over the non-ignored entries (C07) differs, or the folder is gone.  That the hashes recorded by create are the ones
-   recomputed on an unchanged tree is the lockstep correspondence's job (create and verify -dh call the same
-   `dirhash`). *)
-From MHL Require Import Model.Commands Gen.Generated Proofs.BaseFacts Proofs.CodecFacts Proofs.DirHashFacts Proofs.VerifyFacts Proofs.SensFacts.
+   recomputed on an unchanged tree is PROVED for flat trees with any number of generations (C09_unchanged_flat_tree_exit_0,
+   C09_flat_invariant below); for nested histories it is the lockstep correspondence's job (create and verify -dh call
+   the same `dirhash`). *)
+From MHL Require Import Model.Commands Gen.Generated Proofs.BaseFacts Proofs.CodecFacts Proofs.DirHashFacts Proofs.VerifyFacts Proofs.SensFacts Proofs.TreeFacts Proofs.HistFacts Proofs.FlatFacts Proofs.FlatDhFacts.
 
 Theorem C09_never_aborts : forall Hb matches C cdig t f co ro ip ifl,
   exists c, o_outcome (snd (verify_dh Hb matches C cdig t f co ro ip ifl)) = Exit c.
@@ -48,6 +49,34 @@ Theorem C09_content_change_fails_entry : forall Hb matches C, (forall f b, Foral
   e_digest e = c -> dh_entry_ok e cs' = false \/ collision Hb f.
 Proof. intros Hb matches C Hw. exact (changed_entry_fails Hb matches C Hw). Qed.
 Print Assumptions C09_content_change_fails_entry.
+
+(* END TO END, "an unchanged tree gives exit 0", flat trees (one history at the root), any number of generations: seal a
+   tree that has no history with any formats, -n or not, any patterns; run create any number of times with any formats
+   (-n or not) on the untouched tree; then verify -dh exits 0 whatever its options (-h FORMAT, -co, -ro) -- for every
+   tree, matcher and hash primitive.  Every directory entry and every root hash of every generation is the value that
+   `dirhash` yields now (Proofs/FlatDhFacts.v: invariant dh_inv, kept by create, implies exit 0). *)
+Theorem C09_unchanged_flat_tree_exit_0 : forall Hb matches C cdig ser kids h0 req0 nd0 ip ifl rs ofmt co ro,
+  wf_tree C (Dir None kids) -> load C cdig (Dir None kids) = inl [h0] -> req0 <> [] -> Forall (fun x => fst x <> []) rs ->
+  let r0 := create_folder Hb matches C cdig ser (Dir None kids) req0 nd0 false ip ifl in
+  let r := run_creates Hb matches C cdig ser (fst r0) rs in
+  o_outcome (snd (verify_dh Hb matches C cdig (fst r) ofmt co ro [] [])) = Exit 0.
+Proof. exact seal_then_sequences_dh. Qed.
+Print Assumptions C09_unchanged_flat_tree_exit_0.
+
+(* the invariant behind it, from any flat history: recorded directory entries are the present values => exit 0; and one
+   more create run keeps it *)
+Theorem C09_flat_invariant : forall Hb matches C cdig ser n old kids,
+  flat_state_dh Hb matches C cdig n old kids ->
+  (forall ofmt co ro, o_outcome (snd (verify_dh Hb matches C cdig (Dir (Some old) kids) ofmt co ro [] [])) = Exit 0) /\
+  (forall req no_dh, req <> [] ->
+     let run := create_folder Hb matches C cdig ser (Dir (Some old) kids) req no_dh false [] [] in
+     o_outcome (snd run) = Exit 0 /\ exists old', fst run = Dir (Some old') kids /\ flat_state_dh Hb matches C cdig (S n) old' kids).
+Proof.
+  intros Hb matches C cdig ser n old kids H. split.
+  - intros ofmt co ro. apply (flat_state_dh_verifies Hb matches C cdig n old kids ofmt co ro H).
+  - intros req no_dh Hreq. apply (flat_cycle_dh Hb matches C cdig ser n old kids req no_dh H Hreq).
+Qed.
+Print Assumptions C09_flat_invariant.
 
 (* KNOWN FINDING (known_findings.json: dh-missed-change:root-history-has-no-directory-hashes), as a witness in the faithful
    model: the root history holds only a generation without root hash (-n); the nested history at Ab recorded a root hash
